@@ -61,6 +61,10 @@ EXC_TYPES = [Boom, TypeError, ValueError, KeyError, AttributeError, OSError, Int
              _decode_error, _encode_error, _yaml_error, _marked_error, UnicodeError, LookupError, MemoryError, EOFError]
 
 
+class StreamStaysBroken(OSError):
+    pass
+
+
 class FaultyWriter:
     def __init__(self, fail_at, exc_type, binary, with_flush):
         self.n = 0
@@ -74,6 +78,10 @@ class FaultyWriter:
 
     def _tick(self):
         self.n += 1
+        if self.exc is not None and self.fail_at % 2:
+            # a broken stream stays broken (every other fault position): whatever the library still asks of it fails too,
+            # with an exception that is NOT the injected one
+            raise StreamStaysBroken("the stream failed earlier (call %d after the fault at %d)" % (self.n - self.fail_at, self.fail_at))
         if self.n == self.fail_at:
             self.exc = self.exc_type("injected fault #%d" % self.n)
             raise self.exc
@@ -101,6 +109,8 @@ class FaultyReader:
 
     def read(self, size=-1):
         self.n += 1
+        if self.exc is not None and self.fail_at % 2:
+            raise StreamStaysBroken("the stream failed earlier (call %d after the fault at %d)" % (self.n - self.fail_at, self.fail_at))
         if self.n == self.fail_at:
             self.exc = self.exc_type("injected fault #%d" % self.n)
             raise self.exc
